@@ -159,6 +159,19 @@ static void bounds(const SetT &s, const M &m, const KeyT &key, const MKeyT &mkey
   if (ub != mub) vf::fail("C03", "set %d: upper_bound(%d) at %ld, std::set at %ld", i, label, ub, mub);
 }
 
+/// heterogeneous lookups with a key equivalent to a run of (up to two) elements (transparent configuration only)
+template <class SetT, class M>
+static void bucket_lookups(const SetT &s, const M &m, int key, int i) {
+  Bucket bk{key / 2};
+  const long mcount = (long)m.count(bk);
+  auto fit = s.find(bk);
+  if ((fit == s.end()) != (mcount == 0)) vf::fail(PTI(), "set %d: find(bucket %d) %s, std::set finds %ld equivalent elements", i, key / 2, fit == s.end() ? "gives end()" : "finds an element", mcount);
+  else if (!(fit == s.end()) && E::val(*fit) / 2 != key / 2) vf::fail(PTI(), "set %d: find(bucket %d) designates %d", i, key / 2, E::val(*fit));
+  if (s.contains(bk) != (mcount != 0)) vf::fail(PT(), "set %d: contains(bucket %d) wrong", i, key / 2);
+  if ((long)s.count(bk) != mcount) vf::fail(PT(), "set %d: count(bucket %d) returns %ld, std::set returns %ld", i, key / 2, (long)s.count(bk), mcount);
+  if constexpr (kFlat) bounds(s, m, bk, bk, 100 + key / 2, i);
+}
+
 /// address reached through operator-> (raw pointers are their own arrow)
 template <class It>
 static auto arrow_of(const It &it) {
@@ -242,6 +255,7 @@ static void observe(World &w) {
         if (run != mrun) vf::fail("C03", "set %d: equal_range(%d) delimits a different run", i, key);
       }
       if constexpr (kTransparent) {
+        if (key >= 0 && key % 2 == 0) bucket_lookups(s, m, key, i);
         double d = key, dh = key + 0.5;
         lookups(s, m, d, key, true, i);
         lookups(s, m, dh, key, false, i);
